@@ -1,2 +1,40 @@
-(* C12 - statements only (proofs pending). *)
+(* C12 - any input is either loaded or rejected with a diagnostic.  Statements only. *)
 From N2 Require Import Model.All.
+From N2 Require Import Proofs.ParseSpec.
+From N2 Require Import Proofs.DepfileSafe Proofs.ParseSafeWit Proofs.ParseSafeScan Proofs.ParseSafeStmt Proofs.ParseSafeLoad Proofs.ParseSafeErr.
+
+Theorem C12_parser_read_safe : forall text vs, match parser_read true (parse_fuel (text ++ [0%N])) (mkScanner (text ++ [0%N]) 0 1) vs with SOk (Some _, _) s' => sbuf s' = text ++ [0%N] /\ (0 < sofs s' <= length text)%nat | SOk (None, _) _ => True | SErr _ o => (o <= length (text ++ [0%N]))%nat | SPanic _ => False | SOob _ => False | SFuel => False end.
+Proof. exact parser_read_safe_initial_explicit. Qed.
+Print Assumptions C12_parser_read_safe.
+
+Theorem C12_parser_read_safe_gen : forall text s vs, good_scanner text s -> match parser_read true (parse_fuel (text ++ [0%N])) s vs with SOk (Some _, _) s' => good_scanner text s' /\ (sofs s < sofs s')%nat | SOk (None, _) s' => good_scanner text s' | SErr _ o => (o <= length (text ++ [0%N]))%nat | SPanic _ => False | SOob _ => False | SFuel => False end.
+Proof. exact parser_read_safe_gen. Qed.
+Print Assumptions C12_parser_read_safe_gen.
+
+Theorem C12_parser_read_fuel : forall text f s vs, good_scanner text s -> (length (text ++ [0%N]) + 2 <= f + sofs s)%nat -> parser_read_ok text s (parser_read true f s vs).
+Proof. exact parser_read_safe_fuel. Qed.
+Print Assumptions C12_parser_read_fuel.
+
+Theorem C12_manifest_safe : forall depth fs name text, match load_manifest true depth fs name text with Ok _ | Err _ => True | Panic s => s = 0%N \/ s = 1%N \/ s = 60%N | OutOfBounds _ => False | OutOfFuel => False end.
+Proof. exact manifest_safe. Qed.
+Print Assumptions C12_manifest_safe.
+
+Theorem C12_manifest_panic0 : forall depth fs name text, load_manifest true depth fs name text = Panic 0%N -> name = [].
+Proof. exact manifest_panic0. Qed.
+Print Assumptions C12_manifest_panic0.
+
+Theorem C12_error_format : forall text filename s vs m o, good_scanner text s -> parser_read true (parse_fuel (text ++ [0%N])) s vs = SErr m o -> exists lno ctx pad, (1 <= lno)%nat /\ (length (error_prefix filename lno) <= pad)%nat /\ format_parse_error (text ++ [0%N]) filename m o = Ok (error_text filename m lno ctx pad).
+Proof. exact error_format. Qed.
+Print Assumptions C12_error_format.
+
+Theorem C12_target_safe : forall g name, match resolve_target g name with Ok _ => True | Panic s => s = 1%N | _ => False end.
+Proof. exact target_safe. Qed.
+Print Assumptions C12_target_safe.
+
+Theorem C12_depfile_total : forall t, (exists m, depfile_parse t = Ok m) \/ (exists e, depfile_parse t = Err e).
+Proof. exact depfile_total. Qed.
+Print Assumptions C12_depfile_total.
+
+Theorem C12_pinned_vardef_refuted : exists text vs, parser_read false (parse_fuel (text ++ [0%N])) (mkScanner (text ++ [0%N]) 0 1) vs = SOob 20%N.
+Proof. exact pinned_vardef_refuted. Qed.
+Print Assumptions C12_pinned_vardef_refuted.
